@@ -16,6 +16,9 @@ for r in res:
         continue
     ob = r.get('first', '').replace(' no-failing-input-found', '').replace('|', '¦')
     native = 'yes' if 'reproduced' in (m.get('checks') or '') or 'native' in (m.get('checks') or '').lower() else 'see meta.json'
+    if r.get('got') != 'refuted':
+        rows.append('| %s | %s | %s | `./check %s`: NOT refuted - %s (UNDECIDED: the changed code is outside the subset, see the text above) | %s |' % (sid, files, summ, r['property'], r.get('got'), m.get('native', native)))
+        continue
     rows.append('| %s | %s | %s | `./check %s`: `%s` | %s |' % (sid, files, summ, r['property'], ob[:150], m.get('native', native)))
 table = ('| seed | file | change (first sentence of the author\'s summary) | refuted by (first obligation, obligations-only run) | native replay |\n|---|---|---|---|---|\n'
          + '\n'.join(rows))
